@@ -1169,6 +1169,14 @@ class HeapExec(DynExec):
                                                  z3.Not(MATCHF(zp, zs, j))))
             reg['N'].append((pid, snap, lo, hi))
             return [(st, SBool(NOMATCHF(zp, zs, lo, hi)))]
+        if name == 'ALLWS':
+            # ALLWS(S, lo, hi): every element of the (never modified) snapshot list S at a position in [lo, hi) is a
+            # whitespace token.  S must be a pristine view of one base from position 0 (checked structurally), so the
+            # summary is kept in base coordinates: ALLWSF(base, lo, hi).
+            lst = args[0]
+            b = self.pristine_base(st, lst)
+            lo, hi = self.z_int(args[1]), self.z_int(args[2])
+            return [(st, SBool(self.allws_term(st, b, lo, hi)))]
         if name == 'UB':
             return [(st, SInt(self.int_list_ub(st, args[0])))]
         if name == 'SORTED':
@@ -1178,13 +1186,67 @@ class HeapExec(DynExec):
             c, p_, s_, k_ = args
             if isinstance(c, Rec):
                 c = self.getattr(c, 'tokens', st)
-            a = self.suffix_items(st, c, self.z_int(p_))
-            b = self.suffix_items(st, s_, self.z_int(k_))
-            return [(st, SBool(self.items_equal(st, a, b)))]
+            out = []
+            try:
+                for s1, _k in self.split_with_cases(st, c, self.z_int(p_)):
+                    for s2, _k2 in self.split_with_cases(s1, s_, self.z_int(k_)):
+                        a = self.suffix_items(s2, c, self.z_int(p_))
+                        b = self.suffix_items(s2, s_, self.z_int(k_))
+                        out.append((s2, SBool(self.items_equal(s2, a, b))))
+            except OutsideSubset:
+                # a position that provably lies outside the list: the lists cannot be related this way
+                return [(st, False)]
+            return out or [(st, False)]
         if name == 'SAME_ITEMS':
             a, b = args
             return [(st, st.lists[a.lid] == st.lists[b.lid])]
         raise OutsideSubset('spec function %s' % name)
+
+    def pristine_base(self, st, lst):
+        """base id of a list that is exactly the view [0, n) of one base (segments / materialised elements in order)"""
+        if not isinstance(lst, LRef):
+            raise OutsideSubset('ALLWS of a non-list')
+        base, pos = None, z3.IntVal(0)
+        for it in st.lists[lst.lid]:
+            if it[0] == 'el':
+                f = st.objs.get(it[1].oid, {}) if isinstance(it[1], Rec) else {}
+                if '__pos__' not in f:
+                    raise OutsideSubset('ALLWS: the list is not a pristine view')
+                b, lo, hi = f['__base__'], f['__pos__'], z3.simplify(f['__pos__'] + 1)
+            else:
+                sg = self.segs(st)[it[1]]
+                b, lo, hi = sg['base'], sg['lo'], sg['hi']
+            if base is None:
+                base = b
+            if b != base or not z3.eq(z3.simplify(lo), z3.simplify(pos)):
+                if b != base or not smt.entails(st.pc, lo == pos):
+                    raise OutsideSubset('ALLWS: the list is not a pristine view from position 0')
+            pos = hi
+        if base is None:
+            raise OutsideSubset('ALLWS of an empty concrete list')
+        return base
+
+    def allws_term(self, st, base, lo, hi):
+        """ALLWSF(base, lo, hi) with its laws instantiated against the terms already known in this state"""
+        zb = z3.IntVal(base)
+        t = ALLWSF(zb, lo, hi)
+        W = self.W
+        F = elem_functions(W)
+        # (L1) empty interval
+        self.add_fact(st, z3.Implies(lo >= hi, t))
+        # (L2) unfolding at the lower end: the element at position lo is whitespace
+        ws_lo = self._b(self.contains(STy(F['ttype'](zb, z3.simplify(lo))), W.T.Whitespace, st))
+        self.add_fact(st, z3.Implies(z3.And(t, lo < hi), ws_lo))
+        reg = st.ghost.setdefault('__allws__', ())
+        for (b2, lo2, hi2) in reg:
+            if b2 == base:
+                t2 = ALLWSF(zb, lo2, hi2)
+                # (L3) sub-interval law, both directions between known terms
+                self.add_fact(st, z3.Implies(z3.And(t2, lo2 <= lo, hi <= hi2), t))
+                self.add_fact(st, z3.Implies(z3.And(t, lo <= lo2, hi2 <= hi), t2))
+        if not any(b2 == base and z3.eq(lo2, lo) and z3.eq(hi2, hi) for (b2, lo2, hi2) in reg):
+            st.ghost['__allws__'] = reg + ((base, lo, hi),)
+        return t
 
     def eq(self, a, b, st):
         if isinstance(a, Rec) and isinstance(b, Rec):
@@ -1213,6 +1275,7 @@ def elem_functions(W):
     return _EF
 
 
+ALLWSF = z3.Function('ALLWSF', z3.IntSort(), z3.IntSort(), z3.IntSort(), z3.BoolSort())
 MATCHF = z3.Function('MATCHF', z3.IntSort(), z3.IntSort(), z3.IntSort(), z3.BoolSort())
 NOMATCHF = z3.Function('NOMATCHF', z3.IntSort(), z3.IntSort(), z3.IntSort(), z3.IntSort(), z3.BoolSort())
 _PIDS = {}
